@@ -1331,19 +1331,24 @@ func (d *Data) writeStreamingRLE(ctx *datastore.VersionedCtx, blockMeta *labelBl
 	}
 	op := labels.NewOutputOp(w)
 	go labels.WriteRLEs(blockMeta.supervoxels, op, blockMeta.bounds)
+	// (the writing goroutine ends only when the op is finished: every way out goes through Finish)
+	var preErr error
 	for _, izyx := range blockMeta.sortedBlocks {
 		tk := NewBlockTKeyByCoord(blockMeta.scale, izyx)
 		data, err := store.Get(ctx, tk)
 		if err != nil {
-			return err
+			preErr = err
+			break
 		}
 		blockData, _, err := dvid.DeserializeData(data, true)
 		if err != nil {
-			return err
+			preErr = err
+			break
 		}
 		var block labels.Block
 		if err := block.UnmarshalBinary(blockData); err != nil {
-			return err
+			preErr = err
+			break
 		}
 		pb := labels.PositionedBlock{
 			Block:  block,
@@ -1353,6 +1358,9 @@ func (d *Data) writeStreamingRLE(ctx *datastore.VersionedCtx, blockMeta *labelBl
 	}
 	if err = op.Finish(); err != nil {
 		return err
+	}
+	if preErr != nil {
+		return preErr
 	}
 
 	dvid.Infof("labelmap %q label %d consisting of %d supervoxels: streamed %d blocks within bounds\n",
@@ -1395,12 +1403,15 @@ func (d *Data) writeLegacyRLE(ctx *datastore.VersionedCtx, blockMeta *labelBlock
 	}
 	op := labels.NewOutputOp(buf)
 	go labels.WriteRLEs(blockMeta.supervoxels, op, blockMeta.bounds)
+	// (the writing goroutine ends only when the op is finished: every way out goes through Finish)
 	var numEmpty int
+	var preErr error
 	for _, izyx := range blockMeta.sortedBlocks {
 		tk := NewBlockTKeyByCoord(blockMeta.scale, izyx)
 		data, err := store.Get(ctx, tk)
 		if err != nil {
-			return err
+			preErr = err
+			break
 		}
 		if len(data) == 0 {
 			numEmpty++
@@ -1414,11 +1425,13 @@ func (d *Data) writeLegacyRLE(ctx *datastore.VersionedCtx, blockMeta *labelBlock
 		}
 		blockData, _, err := dvid.DeserializeData(data, true)
 		if err != nil {
-			return err
+			preErr = err
+			break
 		}
 		var block labels.Block
 		if err = block.UnmarshalBinary(blockData); err != nil {
-			return err
+			preErr = err
+			break
 		}
 		pb := labels.PositionedBlock{
 			Block:  block,
@@ -1426,10 +1439,11 @@ func (d *Data) writeLegacyRLE(ctx *datastore.VersionedCtx, blockMeta *labelBlock
 		}
 		op.Process(&pb)
 	}
-	if numEmpty < len(blockMeta.sortedBlocks) {
-		if err := op.Finish(); err != nil {
-			return err
-		}
+	if err := op.Finish(); err != nil {
+		return err
+	}
+	if preErr != nil {
+		return preErr
 	}
 
 	serialization := buf.Bytes()
